@@ -129,3 +129,11 @@ Example C06_nonvacuous :
     map (fun a => alab (nth 0 (axes a) dax0)) l = [[L_ 3; L_ 1; L_ 2]; [L_ 3; L_ 1; L_ 2]] /\
     map (fun a => dat (vals a)) l = [[N_ 10; N_ 20; CNaN]; [CNaN; N_ 7; N_ 8]].
 Proof. eexists. split; [reflexivity|]. split; reflexivity. Qed.
+
+(* the kind of the labels of a merged axis, decided by the GENERATED `_get_cast_kind`: int with float gives float - a float label
+   next to integer labels is never truncated - equal kinds stay, and an object axis makes an object axis *)
+Theorem C06_merge_kind : 
+  merge_kind KI KF = (KF, true) /\ merge_kind KF KI = (KF, true) /\ merge_kind KI KI = (KI, true) /\ merge_kind KF KF = (KF, true) /\
+  (forall k, k <> KO -> merge_kind KO k = (KO, false) /\ merge_kind k KO = (KO, false)) /\ merge_kind KO KO = (KO, true).
+Proof. exact merge_kind_table. Qed.
+Print Assumptions C06_merge_kind.
